@@ -16,6 +16,11 @@ import (
 type Dumper struct {
 	Mask     map[string]bool // "Type.field" -> masked
 	SkipType map[string]bool // type names not descended into
+	// structural rules (independent of field names), used where a comparison must ignore
+	// caches, dirty flags, traversal marks and the order of unordered lists
+	MaskBools        bool // every bool field and every map[...]bool field
+	MaskPtrSlices    bool // every field that is a slice of pointers
+	SortStructSlices bool // slices of (non-pointer) structs are rendered sorted
 	seen     map[unsafe.Pointer]int
 	b        strings.Builder
 	depth    int
@@ -173,6 +178,14 @@ func (d *Dumper) val(v reflect.Value) {
 				d.b.WriteString("_")
 				continue
 			}
+			if d.MaskBools && (f.Type.Kind() == reflect.Bool || (f.Type.Kind() == reflect.Map && f.Type.Elem().Kind() == reflect.Bool)) {
+				d.b.WriteString("_")
+				continue
+			}
+			if d.MaskPtrSlices && f.Type.Kind() == reflect.Slice && f.Type.Elem().Kind() == reflect.Pointer {
+				d.b.WriteString("_")
+				continue
+			}
 			d.val(d.field(v, i))
 		}
 		d.b.WriteString("}")
@@ -184,6 +197,18 @@ func (d *Dumper) val(v reflect.Value) {
 		fallthrough
 	case reflect.Array:
 		fmt.Fprintf(&d.b, "[%d:", v.Len())
+		if d.SortStructSlices && v.Type().Elem().Kind() == reflect.Struct {
+			var items []string
+			for i := 0; i < v.Len(); i++ {
+				sub := &Dumper{Mask: d.Mask, SkipType: d.SkipType, seen: d.seen, depth: d.depth, MaskBools: d.MaskBools, MaskPtrSlices: d.MaskPtrSlices, SortStructSlices: true}
+				sub.val(v.Index(i))
+				items = append(items, sub.b.String())
+			}
+			sort.Strings(items)
+			d.b.WriteString(strings.Join(items, ","))
+			d.b.WriteString("]")
+			return
+		}
 		for i := 0; i < v.Len(); i++ {
 			if i > 0 {
 				d.b.WriteString(",")
@@ -200,9 +225,9 @@ func (d *Dumper) val(v reflect.Value) {
 		var items []kv
 		it := v.MapRange()
 		for it.Next() {
-			kd := &Dumper{Mask: d.Mask, SkipType: d.SkipType, seen: d.seen, depth: d.depth}
+			kd := &Dumper{Mask: d.Mask, SkipType: d.SkipType, seen: d.seen, depth: d.depth, MaskBools: d.MaskBools, MaskPtrSlices: d.MaskPtrSlices, SortStructSlices: d.SortStructSlices}
 			kd.val(it.Key())
-			vd := &Dumper{Mask: d.Mask, SkipType: d.SkipType, seen: map[unsafe.Pointer]int{}, depth: d.depth}
+			vd := &Dumper{Mask: d.Mask, SkipType: d.SkipType, seen: map[unsafe.Pointer]int{}, depth: d.depth, MaskBools: d.MaskBools, MaskPtrSlices: d.MaskPtrSlices, SortStructSlices: d.SortStructSlices}
 			// values are rendered with a private pointer table so that map order cannot influence ordinals
 			vd.val(it.Value())
 			items = append(items, kv{kd.b.String(), vd.b.String()})
